@@ -41,7 +41,7 @@ Inductive ev :=
 | XInvalidate (id : N) (ret : bool)
 | XInvalidateExpired (ret : Z)
 | XLookupNonExpired (id : N) (found : bool)
-| XImport (id tag addr cmd : N).   (* a previously used id registered again: Store, then MapCommand(tag, addr, cmd, id) *)
+| XImport (id tag addr cmd : N) (lease : Z).   (* a previously used id registered again: Store, then MapCommand(tag, addr, cmd, id) *)
 
 (* tables of tags, addresses, commands (decimal strings); session duration and lease announced by the servers *)
 Record tables := { t_tags : list str; t_addrs : list str; t_cmds : list str; t_dur : Z; t_lease : Z }.
@@ -183,11 +183,13 @@ Definition step (tb : tables) (st : cache * Z) (e : ev) : option (cache * Z) :=
   | XLookupNonExpired id found =>
       let '(c', r) := lookup_nonexpired c now (sid_of id) in
       if Bool.eqb (match r with Some _ => true | None => false end) found then Some (c', now) else None
-  | XImport id tagi addri cmdi =>
-      match full_of tb (SFullOk id (nth_str (t_cmds tb) cmdi) true) with
-      | FOk fo => Some (store_client_session c now (nth_str (t_tags tb) tagi) (nth_str (t_addrs tb) addri) fo, now)
-      | FFail => None
-      end
+  | XImport id tagi addri cmdi lease =>
+      let tag := nth_str (t_tags tb) tagi in
+      let addr := nth_str (t_addrs tb) addri in
+      let e := {| e_id := sid_of id; e_addr := addr; e_tag := tag;
+                  e_key := Some {| k_data := repeat x00 32; k_proto := s_AES |}; e_policy := None;
+                  e_exp := Some (now + t_dur tb); e_lease := lease |} in
+      Some (map_command (store_new c e) tag addr (nth_str (t_cmds tb) cmdi) (sid_of id), now)
   end.
 
 Fixpoint run_steps (tb : tables) (st : cache * Z) (l : list stepobs) : bool :=
@@ -246,6 +248,7 @@ Definition n202 : N := 202%N.
 Definition n203 : N := 203%N.
 Definition n250 : N := 250%N.
 Definition z0 : Z := 0.
+Definition z950 : Z := 950.
 Definition z1 : Z := 1.
 Definition z2 : Z := 2.
 Definition z3 : Z := 3.
